@@ -89,7 +89,11 @@ def walk_shape(ctx, rule):
                 cur = nxt[0] if len(nxt) == 1 else None
             names = {t.id for a in branch_assigns for t in a.targets if isinstance(t, ast.Name)}
             ctx.ob(rule, "walk/exception-takes-parent-as-suffix", "suffix_length" in names and "match" in names,
-                   "on an exception label SuffixTrie.__walk does not record the current depth as the suffix (assigns %s)" % sorted(names), m.site(et.ast), witness="city.kawasaki.jp")
+                   "on an exception label SuffixTrie.__walk does not record both the current depth and a match (assigns %s): an exception whose parent is not itself a rule ('www.ck') has no suffix" % sorted(names), m.site(et.ast), witness="www.ck")
+            for a in branch_assigns:
+                if isinstance(a.targets[0], ast.Name) and a.targets[0].id == "suffix_length":
+                    ctx.ob(rule, "walk/exception-suffix-is-current-depth", isinstance(a.value, ast.Name) and a.value.id == "current_length",
+                           "on an exception label the suffix length is set to `%s` instead of the depth reached so far: the suffix of 'www.city.kawasaki.jp' swallows 'city' (or becomes empty for 'www.ck')" % unparse(a.value), m.site(a), witness="www.city.kawasaki.jp")
     # child selection
     gets = [n for n in ast.walk(walk) if isinstance(n, ast.Call) and isinstance(n.func, ast.Attribute) and n.func.attr == "get" and "children" in unparse(n.func.value)]
     star = [c for c in gets if c.args and isinstance(c.args[0], ast.Constant) and c.args[0].value == "*"]
@@ -289,7 +293,10 @@ def tld_functions(ctx, rule):
         for role, pred, w in (("lower", lambda x: x[0] == "method" and x[1] in ("lower", "casefold"), "COM"), ("idna", F.is_call("ural.utils.attempt_to_decode_idna"), "xn--p1ai"),
                               ("leading-dot", lambda x: x[0] == "method" and x[1] in ("lstrip", "strip") and x[3] and x[3][0] == ("const", "."), ".com")):
             ctx.ob(rule, "is_valid_tld/" + role, not F.unguarded_paths(probe, leaf, pred), "is_valid_tld does not apply %s to the probe" % role, site, witness=w)
-        # lower before idna (the decoder expects the lower-case 'xn--' prefix? it lower-cases the header itself) -- order not required
+        # the idna codec only recognises a lower-case 'xn--' prefix: lower-casing must come first
+        for dn in F.find_nodes(probe, F.is_call("ural.utils.attempt_to_decode_idna")):
+            bad = F.unguarded_paths(dn[2][0], leaf, lambda x: x[0] == "method" and x[1] in ("lower", "casefold"))
+            ctx.ob(rule, "is_valid_tld/lower-before-idna", not bad, "is_valid_tld IDNA-decodes the probe before lower-casing it: an upper-case punycode TLD ('XN--P1AI') is never decoded and is_valid_tld disagrees with has_valid_tld", site, witness="XN--P1AI")
     ref = tld.func("has_valid_tld")
     ctx.fn(ref.qualname)
     rets = [r for r in ex.function(ref) if r.kind == "return"]
@@ -318,6 +325,9 @@ def tld_functions(ctx, rule):
 
 
 def run(ctx):
+    ctx.rule("R0", "special hosts: SPECIAL_HOSTS_RE (the walk bails out on it) accepts exactly localhost / dotted quads (optional port) / colon-bearing hex literals as whole strings")
+    from .common_url import rule_special_hosts
+    rule_special_hosts(ctx, "R0")
     walk_shape(ctx, "R1")
     offsets(ctx, "R2")
     data_conditions(ctx, "R3")
